@@ -5,6 +5,17 @@ VERIF = os.path.dirname(os.path.dirname(os.path.abspath(__file__)))
 REPO = os.environ.get("VERIF_REPO", "/repo")
 BUILD = os.path.join(VERIF, "build")
 COQ = os.path.join(VERIF, "coq")
+# a run against another tree than /repo (mutation testing with VERIF_REPO=<worktree>) gets a private copy of the Coq
+# development (incl. its own Extracted.v and .vo files), so that it cannot disturb runs against /repo itself
+ALT = None
+if os.path.realpath(REPO) != "/repo":
+    ALT = os.path.join(BUILD, "alt_" + hashlib.sha1(os.path.realpath(REPO).encode()).hexdigest()[:10])
+    COQ = os.path.join(ALT, "coq")
+    os.makedirs(COQ, exist_ok=True)
+    os.environ["VERIF_COQ"] = COQ
+    subprocess.run(["rsync", "-a", "--delete", "--exclude", "run/", "--exclude", "gen/Extracted.v", "--exclude", "gen/Extracted.vo",
+                    "--exclude", "Makefile*", "--exclude", ".Makefile.d", "--exclude", "_CoqProject",
+                    os.path.join(VERIF, "coq") + "/", COQ + "/"], check=False)
 sys.path.insert(0, os.path.join(VERIF, "gen"))
 sys.path.insert(0, os.path.join(VERIF, "vlib"))
 import overlay as ovl  # noqa: E402
@@ -68,7 +79,7 @@ def run_extract(ctx, needed):
 class BuildLock:
     def __enter__(self):
         os.makedirs(BUILD, exist_ok=True)
-        self.f = open(os.path.join(BUILD, ".lock"), "w")
+        self.f = open(os.path.join(ALT or BUILD, ".lock"), "w")
         fcntl.flock(self.f, fcntl.LOCK_EX)
         return self
 
@@ -160,7 +171,7 @@ def coq_thorough_audit(ctx, prop_file):
 # ------------------------------------------------------------------ step 3: run the implementation (Go, overlay)
 def go_modfile(module):
     """copy go.mod/go.sum of the working tree to build/mod/<module>/ (never rewrite /repo)"""
-    d = os.path.join(BUILD, "mod", module.replace("/", "_"))
+    d = os.path.join(ALT or BUILD, "mod", module.replace("/", "_"))
     os.makedirs(d, exist_ok=True)
     for f in ("go.mod", "go.sum"):
         src = os.path.join(REPO, module, f)
@@ -172,7 +183,7 @@ def go_modfile(module):
 def go_harness(ctx, module, pkg, run_regex, injected, env=None, timeout=900, race=False, extra_args=()):
     """go test -tags verif -overlay ... -run <regex> <pkg> in /repo/<module>; injected = {repo-rel target: /verif file}.
     returns (rc, output, outfile) ; the harness writes JSON lines to $VERIF_OUT"""
-    name = "%s_%s" % (ctx.pid, re.sub(r'\W+', '_', pkg))
+    name = "%s_%s%s" % (ctx.pid, re.sub(r'\W+', '_', pkg), ("_" + os.path.basename(ALT)) if ALT else "")
     if module == "node":
         ov = ovl.make_overlay(name, injected)
     else:
@@ -404,7 +415,8 @@ def write_evidence(ctx, nviol):
         "coverage": cov, "assumptions": ctx.assumptions, "wall_s": round(time.time() - ctx.t0, 2),
         "violations": nviol,
     }
-    p = os.path.join(VERIF, "evidence", ctx.pid + ".json")
+    p = os.path.join(ALT or VERIF, "evidence", ctx.pid + ".json")  # runs against another tree never touch /verif/evidence
+    os.makedirs(os.path.dirname(p), exist_ok=True)
     json.dump(ev, open(p + ".tmp", "w"), indent=1, default=str)
     os.replace(p + ".tmp", p)
 
